@@ -318,6 +318,7 @@ def run_harness(ctx, name, ncases, variant="rel", args=(), jobs=None, timeout=18
         os.makedirs(wd, exist_ok=True)
         env = dict(SAN_ENV)
         env["XDG_DATA_HOME"] = xdg or os.path.join(wd, "xdg")
+        env["MALLOC_PERTURB_"] = str(1 + (a * 31 + ctx.seed * 7) % 254)      # glibc fills fresh / freed heap memory with this byte (no effect under ASan)
         cmd = [exe, "--seed", str(ctx.seed), "--from", str(a), "--count", str(n),
                "--tier", ctx.tier] + [str(x) for x in args]
         r = run_cmd(cmd, cwd=wd, env=env, timeout=timeout)
